@@ -1,4 +1,5 @@
 import PeptVerif.Lemmas.ModBuilder
+import PeptVerif.Lemmas.ModBuilderRegex
 /-!
 # C13 — static and variable modification builders produce exactly the intended forms
 
@@ -240,6 +241,181 @@ example :
     (applyVariable a internal 1 (.direct (.one ⟨.str "A".toList, 1⟩)) .none .append [-1, 0, 1, 2]).length = 18 ∧
     (applyVariable a internal 1 (.direct (.one ⟨.str "A".toList, 1⟩)) .none .overwrite [-1, 0, 1, 2]).Nodup ∧
     (∀ j ∈ [0, 1, 2], (offered (varInternalRules internal) j).Nodup) := by decide
+
+/-! ## rules given as regex patterns (the RegexLite subset)
+
+`modSites p s` is the model of `get_regex_match_indices(s, p, offset=-1)` for patterns built from literals / classes
+(`K`, `[ST]`, sequences `P[ST]`), `(?<=[..])`, `(?=[..])`, `(?=[^..])`, `(?![..])` and for the empty pattern `''`
+(`Model/ModBuilderRegex.lean`, tied to the implementation by correspondence). With the matcher inside the model the
+hypotheses about site lists are theorems, and the statements above hold end to end for rules given as such patterns.
+A regex outside the subset still enters as the site list computed by the implementation (`Target.sites`), and only for
+those the hypothesis "no position twice" remains. -/
+
+open RegexLite in
+/-- the match ranges (`get_regex_match_range`): one per start position at most, in increasing order of the start, each of
+the length of the pattern (its number of consuming items) and inside the text -/
+theorem pattern_ranges_ok (p : Pattern) (s : List Char) :
+    (matchRanges p s).Pairwise (fun r r' => r.1 < r'.1) ∧
+    ∀ r ∈ matchRanges p s, r.2 = r.1 + consumeCount p ∧ r.2 ≤ s.length := by
+  refine ⟨rangesGo_sorted p 0 [] s, fun r hr => ?_⟩
+  have := rangesGo_spec p 0 [] s r hr
+  omega
+
+open RegexLite in
+/-- the two site-list hypotheses, for every pattern of the subset and every text: no position twice (the list is even
+strictly increasing), and every position is a residue index `< n` (`-1` can only come from an empty match at the very
+start, as for `''`; a consuming pattern yields indices `0 … n-1` only) -/
+theorem pattern_sites_ok (p : Pattern) (s : List Char) :
+    (modSites p s).Nodup ∧ (modSites p s).Pairwise (· < ·) ∧
+    ∀ x ∈ modSites p s, -1 ≤ x ∧ x < (s.length : Int) ∧ (consumeCount p ≠ 0 → 0 ≤ x) :=
+  ⟨modSites_nodup p s, modSites_sorted p s, modSites_bounds p s⟩
+
+/-- what remains to be assumed: targets that are site lists (regexes outside the subset) list no position twice -/
+def TargetsOK {α : Type} (rules : List (Target × α)) : Prop := ∀ r ∈ rules, ∀ l, r.1 = .sites l → l.Nodup
+
+def TermTargetsOK {α : Type} : TermT α → Prop
+  | .dict rules => TargetsOK rules
+  | _ => True
+
+theorem sitesOK_resolve {α : Type} (s : List Char) (internal : Option (List (Target × α)))
+    (h : TargetsOK (internal.getD [])) : SitesOK ((internal.map (resolveRules s)).getD []) := by
+  cases internal with
+  | none => intro r hr; cases hr
+  | some rules => exact resolveRules_sitesOK s rules h
+
+theorem termSitesOK_resolve {α : Type} (s : List Char) (t : TermT α) (h : TermTargetsOK t) :
+    TermSitesOK (modSites [] s) (resolveTerm s t) := by
+  refine ⟨modSites_nodup [] s, fun rules hr => ?_⟩
+  cases t with
+  | none => cases hr
+  | direct v => cases hr
+  | dict rs =>
+    simp only [resolveTerm, TermIn.dict.injEq] at hr
+    subst hr
+    exact resolveRules_sitesOK s rs h
+
+/-- C13 (static), end to end for pattern rules: the table holds with the rule dicts obtained by matching the patterns. -/
+theorem static_spec_patterns (a : Annotation) (internal : Option (List (Target × ModsIn))) (nterm cterm : TermT ModsIn)
+    (mode : Mode) :
+    StaticSpec a (applyStaticPat a internal nterm cterm mode)
+      (staticInternalRules (internal.map (resolveRules a.seq)))
+      (staticTermRules (modSites [] a.seq) (resolveTerm a.seq nterm))
+      (staticTermRules (modSites [] a.seq) (resolveTerm a.seq cterm)) mode :=
+  static_spec ..
+
+open RegexLite in
+/-- C13 (static), one rule whose pattern addresses one residue with look-around conditions — `S(?=P)`, `(?<=K)P`,
+`(?<=[KR])[ST](?!P)`: `pre`, `post` are the look-around items before / after the consuming class. Exactly the residues
+`k` with `oneHolds` (class contains the residue, every look-around item holds for its neighbours) are modified, according to
+the mode: an unmodified one receives `m`, a modified one keeps its mods (skip), gets `m` appended (append) or is replaced by
+`m` (overwrite) — that is `newVal`; every other index, both termini and all other fields are untouched. -/
+theorem static_residue_rule (a : Annotation) (pre post : Pattern) (cls : List Char) (m : List Mod) (mode : Mode)
+    (hpre : ∀ it ∈ pre, it.zeroWidth = true) (hpost : ∀ it ∈ post, it.zeroWidth = true) (hm : m ≠ []) :
+    let r := applyStaticPat a (some [(.pat (pre ++ .consume cls :: post), .many m)]) .none .none mode
+    (∀ (k : Nat) (h : k < a.seq.length),
+        oneHolds pre cls post (if k = 0 then none else a.seq[k - 1]?) a.seq[k] a.seq[k + 1]? = true →
+        modsAt r (k : Int) = some (newVal mode (modsAt a (k : Int)) m)) ∧
+    (∀ i : Int, ¬ (∃ k : Nat, ∃ h : k < a.seq.length, i = (k : Int) ∧
+        oneHolds pre cls post (if k = 0 then none else a.seq[k - 1]?) a.seq[k] a.seq[k + 1]? = true) →
+        modsAt r i = modsAt a i) ∧
+    r.nterm = a.nterm ∧ r.cterm = a.cterm ∧ FrameT r a := by
+  intro r
+  have sp := static_spec_patterns a (some [(.pat (pre ++ .consume cls :: post), .many m)]) .none .none mode
+  have hoff : ∀ i : Int, staticOffers (staticInternalRules
+      ((some [(Target.pat (pre ++ .consume cls :: post), ModsIn.many m)]).map (resolveRules a.seq))) i
+      = if i ∈ modSites (pre ++ .consume cls :: post) a.seq then [m] else [] := by
+    intro i
+    exact staticOffers_single (modSites (pre ++ .consume cls :: post) a.seq, m) hm (modSites_nodup _ _) i
+  refine ⟨?_, ?_, ?_, ?_, sp.rest⟩
+  · intro k hk hh
+    have hmem : (k : Int) ∈ modSites (pre ++ .consume cls :: post) a.seq :=
+      (mem_modSites_one pre post cls hpre hpost a.seq k).mpr ⟨k, hk, rfl, hh⟩
+    show modsAt (applyStaticPat a _ .none .none mode) (k : Int) = _
+    rw [sp.residues, hoff, if_pos hmem, staticTable_single]
+  · intro i hno
+    have hmem : i ∉ modSites (pre ++ .consume cls :: post) a.seq :=
+      fun h => hno ((mem_modSites_one pre post cls hpre hpost a.seq i).mp h)
+    show modsAt (applyStaticPat a _ .none .none mode) i = _
+    rw [sp.residues, hoff, if_neg hmem]
+    simp [staticTable]
+  · show (applyStaticPat a _ .none .none mode).nterm = _
+    rw [sp.nterm]; simp [resolveTerm, staticTermRules, staticOffers, staticTable]
+  · show (applyStaticPat a _ .none .none mode).cterm = _
+    rw [sp.cterm]; simp [resolveTerm, staticTermRules, staticOffers, staticTable]
+
+/-- C13 (static), a plain residue or class rule `{'K': m}`, `{'[ST]': m}`: `apply_static_mods` modifies exactly the
+residues of the class (according to the mode) and nothing else. -/
+theorem static_class_rule (a : Annotation) (cls : List Char) (m : List Mod) (mode : Mode) (hm : m ≠ []) :
+    let r := applyStaticPat a (some [(.pat [.consume cls], .many m)]) .none .none mode
+    (∀ (k : Nat) (h : k < a.seq.length), cls.contains a.seq[k] = true →
+        modsAt r (k : Int) = some (newVal mode (modsAt a (k : Int)) m)) ∧
+    (∀ i : Int, ¬ (∃ k : Nat, ∃ h : k < a.seq.length, i = (k : Int) ∧ cls.contains a.seq[k] = true) →
+        modsAt r i = modsAt a i) ∧
+    r.nterm = a.nterm ∧ r.cterm = a.cterm ∧ FrameT r a := by
+  have h := static_residue_rule a [] [] cls m mode (by simp) (by simp) hm
+  simpa [oneHolds, RegexLite.holdsAt_nil] using h
+
+/-- non-vacuity: `apply_static_mods('KPSPT', {'[ST](?=P)': 'x'})` and `{'P': 'x'}` inside the model -/
+example :
+    let a : Annotation := { seq := "KPSPT".toList }
+    let x : List Mod := [⟨.str "x".toList, 1⟩]
+    modSites [.consume ['S', 'T'], .ahead ['P']] a.seq = [2] ∧ modSites [.consume ['P']] a.seq = [1, 3] ∧
+    modSites [] a.seq = [-1, 0, 1, 2, 3, 4] ∧ matchRanges [.consume ['P'], .consume ['S', 'T']] a.seq = [(1, 3), (3, 5)] ∧
+    modsAt (applyStaticPat a (some [(.pat [.consume ['S', 'T'], .ahead ['P']], .many x)]) .none .none .skip) 2 = some x := by
+  decide
+
+/-- C13 (variable, mode skip), end to end for pattern rules: exactness without any hypothesis on pattern targets. -/
+theorem variable_skip_exact_patterns (a : Annotation) (internal : Option (List (Target × VarIn))) (maxMods : Int)
+    (nterm cterm : TermT VarIn) (h0 : 0 ≤ maxMods)
+    (hi : TargetsOK (internal.getD [])) (hn : TermTargetsOK nterm) (hc : TermTargetsOK cterm) :
+    (applyVariablePat a internal maxMods nterm cterm .skip).Perm
+      (specVariable a (internal.map (resolveRules a.seq)) maxMods (resolveTerm a.seq nterm) (resolveTerm a.seq cterm)
+        .skip (modSites [] a.seq)) :=
+  variable_skip_exact a _ maxMods _ _ _ h0 (sitesOK_resolve a.seq internal hi)
+    (termSitesOK_resolve a.seq nterm hn) (termSitesOK_resolve a.seq cterm hc)
+
+/-- C13 (variable, every mode), no form twice, end to end for pattern rules. -/
+theorem variable_no_form_twice_patterns (a : Annotation) (internal : Option (List (Target × VarIn))) (maxMods : Int)
+    (nterm cterm : TermT VarIn) (mode : Mode)
+    (hi : TargetsOK (internal.getD [])) (hn : TermTargetsOK nterm) (hc : TermTargetsOK cterm)
+    (hok : ∀ j : Int, offered (varInternalRules (internal.map (resolveRules a.seq))) j ≠ [] →
+      SiteOK mode (modsAt a j) (offered (varInternalRules (internal.map (resolveRules a.seq))) j))
+    (hdn : (termOffered (varTermRules (modSites [] a.seq) (resolveTerm a.seq nterm)) 0).Nodup)
+    (hdc : (termOffered (varTermRules (modSites [] a.seq) (resolveTerm a.seq cterm)) ((a.seq.length : Int) - 1)).Nodup) :
+    (applyVariablePat a internal maxMods nterm cterm mode).Nodup :=
+  variable_no_form_twice a _ maxMods _ _ mode _ (sitesOK_resolve a.seq internal hi)
+    (termSitesOK_resolve a.seq nterm hn) (termSitesOK_resolve a.seq cterm hc) hok hdn hdc
+
+/-- C13 (variable, every mode), changes confined, end to end for pattern rules. -/
+theorem variable_changes_confined_patterns (a : Annotation) (internal : Option (List (Target × VarIn))) (maxMods : Int)
+    (nterm cterm : TermT VarIn) (mode : Mode) (hi : TargetsOK (internal.getD []))
+    (x : Annotation) (hx : x ∈ applyVariablePat a internal maxMods nterm cterm mode) :
+    FrameT x a ∧
+    (∀ j : Int, modsAt x j = modsAt a j ∨
+      (0 ≤ j ∧ j < (a.seq.length : Int) ∧ ∃ g ∈ offered (varInternalRules (internal.map (resolveRules a.seq))) j,
+        ¬(mode = .skip ∧ (modsAt a j).isSome = true) ∧ modsAt x j = some (newVal mode (modsAt a j) g))) :=
+  let h := variable_changes_confined a _ maxMods _ _ mode _ (sitesOK_resolve a.seq internal hi) x hx
+  ⟨h.1, h.2.1⟩
+
+open RegexLite in
+/-- the groups offered at residue `j` by one variable rule with a one-residue pattern: the rule's groups exactly at the
+residues satisfying `oneHolds` (this is what `eligible` / `specForms` range over for such a rule) -/
+theorem offered_residue_rule (s : List Char) (pre post : Pattern) (cls : List Char) (gs : List Group)
+    (hpre : ∀ it ∈ pre, it.zeroWidth = true) (hpost : ∀ it ∈ post, it.zeroWidth = true) (j : Int) :
+    (offered [(modSites (pre ++ .consume cls :: post) s, gs)] j ≠ [] →
+      ∃ k : Nat, ∃ h : k < s.length, j = (k : Int) ∧
+        oneHolds pre cls post (if k = 0 then none else s[k - 1]?) s[k] s[k + 1]? = true) ∧
+    (∀ (k : Nat) (h : k < s.length), j = (k : Int) →
+        oneHolds pre cls post (if k = 0 then none else s[k - 1]?) s[k] s[k + 1]? = true →
+        offered [(modSites (pre ++ .consume cls :: post) s, gs)] j = gs) := by
+  simp only [offered, List.flatMap_cons, List.flatMap_nil, List.append_nil]
+  refine ⟨fun h => ?_, fun k hk hj hh => ?_⟩
+  · split at h
+    · rename_i hmem; exact (mem_modSites_one pre post cls hpre hpost s j).mp hmem
+    · exact absurd rfl h
+  · have hmem : j ∈ modSites (pre ++ .consume cls :: post) s :=
+      (mem_modSites_one pre post cls hpre hpost s j).mpr ⟨k, hk, hj, hh⟩
+    simp [hmem]
 
 /-! ### the code before repair c2a4986 -/
 
